@@ -946,7 +946,7 @@ func passes(quick bool) []pass {
 	if quick {
 		// the longer histories of the quick tier: time passing, the in-band executions, a failing execution, the
 		// old backfill, a restart (every history of the core alphabet up to this length is in thorough)
-		deep := []int{eTickHalf, eTick, eSched, eSchedRead, eManual, eManualRange, eRestart}
+		deep := []int{eTick, eSched, eSchedRead, eManual, eManualRange, eRestart}
 		return []pass{
 			mk("core@.250s", q250, cut(3), "every history of length 1..%d over the core alphabet "+evList(core), genAll(core, cut(3))),
 			mk("shapes@.250s", q250, cut(3), "every history of length 1..%d with exactly one of the manual request shapes "+evList(shapesOnly)+" and the other events from "+evList(ctx), genOne(shapesOnly, ctx, cut(3))),
